@@ -115,7 +115,7 @@ func (w *netw) catchUp(i int) error {
 		return infra("node %d: tracker calls of catch-up missing", i)
 	}
 	w.mapl[i] = c
-	// arrival order at the follower's tracker is kept (K29)
+	// arrival order at the follower's tracker is kept: the calls are synchronous
 	cs := "-"
 	if len(calls) > 0 {
 		cs = strings.Join(calls, "+")
@@ -366,7 +366,11 @@ func runNet(ops []op, events []string) ([]op, []string, []string, error) {
 			return nil, nil, nil, fmt.Errorf("bad token %s", e)
 		}
 	}
-	return ops[:w.next], w.evs, w.obs, nil
+	g := "G-"
+	if w.next > 0 {
+		g = "G" + strings.Repeat("1", w.next) // every op of a net history was acknowledged
+	}
+	return ops[:w.next], w.evs, append([]string{g}, w.obs...), nil
 }
 
 // genNetCase: role-based script.
